@@ -45,7 +45,8 @@ def showRes : Queue.Res → String
   | .val r => showOVal r
   | .num n => toString n
   | .bool b => toString b
-  | .items l => showVals l
+  | .items l _ => showVals l
+  | .dropped => "ok"
   | .panic => "panic"
 
 def walkCap : Nat := 40
